@@ -322,7 +322,7 @@ impl World {
     }
 
     #[allow(clippy::too_many_arguments)]
-    fn serve_refresh(
+    pub fn serve_refresh(
         &mut self,
         from: usize,
         bytes: Vec<u8>,
@@ -991,6 +991,151 @@ impl World {
                 }
             }
         }
+    }
+
+    /// Enumerated storage faults on one slot (C07 / C12): each mutant is read by one authorized
+    /// and one unauthorized current key (when they exist); stops at the first failing observation.
+    pub fn sweep_slot(&mut self, slot: usize, mode: &SweepMode, stride: usize) {
+        if slot >= self.slots.len() || self.slots[slot].bytes != self.slots[slot].orig {
+            return;
+        }
+        let stride = stride.max(1);
+        let mut auth = None;
+        let mut unauth = None;
+        for (u, usr) in self.users.iter().enumerate() {
+            if let Some((_, mu)) = &usr.usk {
+                if mu.unspecified {
+                    continue;
+                }
+                if mu.opens(&self.slots[slot].m) {
+                    auth.get_or_insert(u);
+                } else {
+                    unauth.get_or_insert(u);
+                }
+            }
+        }
+        let readers: Vec<usize> = auth.into_iter().chain(unauth).collect();
+        if readers.is_empty() {
+            return;
+        }
+        let orig = self.slots[slot].orig.clone();
+        let n_before = self.failed.len();
+        let mut n = 0u64;
+        let total = match mode {
+            SweepMode::BitFlips => orig.len() * 8,
+            SweepMode::Truncations => orig.len(),
+            SweepMode::ByteOverwrites => orig.len(),
+        };
+        let mut i = 0;
+        while i < total {
+            let mut b = orig.clone();
+            match mode {
+                SweepMode::BitFlips => b[i / 8] ^= 1 << (i % 8),
+                SweepMode::Truncations => b.truncate(i),
+                SweepMode::ByteOverwrites => b[i] = b[i].wrapping_add(0x55) ^ 0xa7,
+            }
+            if b != orig {
+                self.slots[slot].bytes = b;
+                for u in &readers {
+                    self.ev_read(*u, slot);
+                    self.outcomes.pop();
+                    n += 1;
+                }
+                if self.failed.len() > n_before {
+                    // keep the failing mutant in the detail of the first failure
+                    let pos = i;
+                    if let Some(f) = self.failed.get_mut(n_before) {
+                        f.detail = format!("{} (enumeration index {pos} of {total}, mode {:?})", f.detail, mode);
+                    }
+                    break;
+                }
+            }
+            i += stride;
+        }
+        self.slots[slot].bytes = orig;
+        let key = match mode {
+            SweepMode::BitFlips => "enumerated-bit-flips",
+            SweepMode::Truncations => "enumerated-truncations",
+            SweepMode::ByteOverwrites => "enumerated-byte-overwrites",
+        };
+        *self.stats.checks.entry(key).or_default() += n;
+        self.stats.probe(if stride == 1 { "sweep-slot-exhaustive" } else { "sweep-slot-strided" });
+        self.outcomes.push(format!("sweep:{}", if self.failed.len() > n_before { "violation" } else { "clean" }));
+    }
+
+    /// Every re-framing operator at every applicable position on one user's key (C08).
+    pub fn sweep_usk(&mut self, user: usize) {
+        if user >= self.users.len() {
+            return;
+        }
+        let Some((usk, m)) = &self.users[user].usk else { return };
+        if m.unspecified {
+            return;
+        }
+        let Ok(bytes) = usk.serialize() else { return };
+        let bytes = bytes.to_vec();
+        let m = m.clone();
+        let n_rights = m.rights.len();
+        let max_chain = m.rights.values().map(|c| c.len()).max().unwrap_or(1);
+        let mut ops: Vec<UskOp> = vec![UskOp::MarkerIntoName, UskOp::Foreign, UskOp::StripSignature];
+        for i in 0..n_rights {
+            ops.push(UskOp::MergeAdjacent { i });
+            ops.push(UskOp::DupRight { i });
+            ops.push(UskOp::DropRight { i });
+            ops.push(UskOp::RenameRight { i, name: vec![0x7f] });
+            ops.push(UskOp::RenameRight { i, name: vec![] });
+            ops.push(UskOp::HybridToClassicShift { i });
+            for k in 0..max_chain {
+                ops.push(UskOp::DropSecret { i, k });
+                ops.push(UskOp::DupSecret { i, k });
+                ops.push(UskOp::SwapSecrets { i, k });
+                ops.push(UskOp::FlipFlavourFlag { i, k });
+                ops.push(UskOp::SplitChain { i, k });
+            }
+            for k in 1..4 {
+                ops.push(UskOp::SplitName { i, k });
+                ops.push(UskOp::ShiftNameBorder { i, k });
+            }
+            for j in 0..n_rights {
+                if i != j {
+                    ops.push(UskOp::MoveSecret { from: i, to: j });
+                    if j == i + 1 || (i == 0 && j == n_rights - 1) {
+                        ops.push(UskOp::SwapRights { i, j });
+                    }
+                }
+            }
+        }
+        for o in 0..self.users.len() {
+            if o != user {
+                ops.push(UskOp::IdFrom { other_user: o });
+                ops.push(UskOp::RightsUnion { other_user: o });
+                ops.push(UskOp::SignatureFrom { other_user: o });
+            }
+        }
+        for pos in 0..32 {
+            ops.push(UskOp::AlterSignature { pos, bit: (pos % 8) as u8 });
+        }
+        let n_before = self.failed.len();
+        let mut n = 0u64;
+        for op in ops {
+            let Some(b2) = faults::apply_usk_op(self, user, &bytes, &op) else { continue };
+            if b2 == bytes {
+                continue;
+            }
+            let same_mac = match (faults::mac_view(&bytes), faults::mac_view(&b2)) {
+                (Some(a), Some(b)) => a == b,
+                _ => false,
+            };
+            let tag = format!("{}/{}", faults::usk_op_name(&op), if same_mac { "same-mac-input" } else { "different-mac-input" });
+            self.stats.fault(faults::usk_op_name(&op));
+            let keep = n % 2 == 0;
+            self.serve_refresh(user, b2, m.clone(), keep, Some(tag), 0, false, true);
+            self.outcomes.pop();
+            n += 1;
+        }
+        *self.stats.checks.entry("enumerated-usk-reframings").or_default() += n;
+        self.stats.probe("sweep-usk");
+        self.outcomes.push(format!("sweep-usk:{}", if self.failed.len() > n_before { "violation" } else { "clean" }));
     }
 
     pub fn ev_audit(&mut self) {
